@@ -242,6 +242,7 @@ func runOnce(t *testing.T, tape *simrt.Tape, run RunFunc, keep int) (o outcome) 
 func Main(t *testing.T, property string, run RunFunc) {
 	harness := t.Name()
 	debug.SetGCPercent(400)
+	debug.SetMemoryLimit(2 << 30) // 16 workers share the machine
 	loadKnown()
 	if *flagReplay != "" {
 		replayMain(t, property, harness, run)
